@@ -1,5 +1,5 @@
 CONSTANT Tier = "quick"
-CONSTANT Fams = {"ax", "val", "bud", "upg", "der"}
+CONSTANT Fams = {"bud"}
 SPECIFICATION Spec
 INVARIANT Laws
 INVARIANT Emit
